@@ -127,14 +127,11 @@ theorem C02_session_outlives_its_connections (as : List Act) :
   intro id hid
   exact run_tracked {} as (fun _ => False) hg (fun _ hf => hf.elim) id (Or.inr hid)
 
-/-- the code has that policy: the server's session object is closed on the accept loop's own path after a fatal accept
-    error and, since repair 7014fd1, by the carrier watch / carrier writer when the carrier itself is lost (never on a
-    goroutine of a logical connection); the client's in `discard` (a session found dead) and `Shutdown` (regenerated) -/
-theorem C02_session_close_sites :
-    Gen.sessionCloseSites = ["client/upstream/upstream.go Shutdown ul.session:go",
-      "client/upstream/upstream.go discard ul.session:own", "server/communicator.go Write session:own",
-      "server/communicator.go acceptStream ch.session:own", "server/communicator.go watch session:own"] ∧
-    serverClosesFromStream = false := by decide
+/-- the code has that policy: nothing that runs on the goroutine `acceptStream` starts per logical connection — its body
+    and the functions of package server it calls — closes the server's session object (regenerated; the close sites
+    themselves are listed in `Gen.sessionCloseSites` for the reader: the accept loop's own path after a fatal accept
+    error and, since repair 7014fd1, the carrier watch when the carrier itself is lost) -/
+theorem C02_session_close_sites : serverClosesFromStream = false := by decide
 
 /-- witness: a server that releases the session with its last logical connection loses the connection opened while that
     close was travelling (A opened and served, A closed, B opened, FIN arrives, B's SYN arrives) -/
